@@ -43,15 +43,15 @@ CHECKS = {
              "against all WPT setter vectors. Theorems (all values): every setter preserves the record invariants; the "
              "Standard's refusals; protocol setter keeps special-ness and clears default ports; the setter layer's "
              "work-then-rollback model is atomic on failure; end to end for url_aggregator's set_username/set_password/"
-             "set_search/set_hash: the model of the C++ setter (precondition, encode, in-place editor of C07, limit check, "
+             "set_search/set_hash/set_port and the state-override core of set_protocol: the model of the C++ setter (precondition, encode, in-place editor of C07, limit check, "
              "roll-back) applied to a record's buffer is the buffer of the Standard's setter result when it fits the limit "
-             "and the untouched buffer otherwise (these four setter models are tied to the real setters call by call in "
+             "and the untouched buffer otherwise (these six setter models are tied to the real setters call by call in "
              "C07's L1 run). Both URL types are compared with the Spec after every step of "
              "generated histories (all getters, origin, flags), failed steps are checked to leave every observable "
              "unchanged, and relative references are resolved against the object a history leaves behind.",
         design_ref="DESIGN.md §5 C03",
-        note="partial: four component setters of url_aggregator are modelled and proved end to end; for the other setters "
-             "(href, protocol, host, hostname, port, pathname) and for ada::url conformance rests on the correspondence with "
+        note="partial: six setters of url_aggregator are modelled and proved end to end; for the other setters "
+             "(href, host, hostname, pathname; the scheme scanner in front of set_protocol's core) and for ada::url conformance rests on the correspondence with "
              "the validated Spec (differential)."),
     "C04": dict(
         technique="Lean 4 proof that the model of ada::url (get_href fast/general path, get_href_size, get_components) "
@@ -119,7 +119,8 @@ CHECKS = {
              "host/domain code-point tables equal the Standard's sets, serialized addresses end in a number, parsed hosts are "
              "well-formed/non-empty; decided boundary tables for number forms, IPv6 compression and DNS length. The "
              "implementation is compared with the Spec on href, host, port, host kind and has_valid_domain for hosts "
-             "parsed, inherited from a base and replaced by setters, and every produced IP href is re-parsed.",
+             "parsed, inherited from a base and replaced by setters (including IPv4 spellings disguised by percent-escapes and "
+             "full-width forms, and an AVX-512 build pass), and every produced IP href is re-parsed.",
         design_ref="DESIGN.md §5 C10",
         note="parse_ipv4/parse_ipv6 C++ kernels and the C++ serialisers are compared with the Spec, not modelled; the "
              "round-trip theorems are about the Spec (validated transcription of the Standard)."),
@@ -182,7 +183,9 @@ CHECKS = {
              "conversely a relaxed READY store, a relaxed first load, or READY stored before the pointer stores each make a "
              "race reachable (explicit schedules, so a weakened order is a counter-example in the model). "
              "The limit is shown to be one relaxed atomic read once per parse. Fresh processes making the first IDNA call "
-             "from 2-16 threads, and a limit flipper against parse/can_parse/setters, run under ThreadSanitizer and plain.",
+             "from 2-16 threads, a limit flipper against parse/can_parse/setters, and a steady-state run (threads working on "
+             "their own objects after initialisation, compared with a single-threaded reference) run under ThreadSanitizer "
+             "and plain.",
         design_ref="DESIGN.md §5 C13", category="proof",
         note="partial: the hardware memory model and the OS scheduler are not modelled (x86 cannot show a release/acquire "
              "violation); Spec of release/acquire is a ~100-line hand rendering; the 1e9 spin cap (starved waiter returns "
@@ -260,11 +263,13 @@ CHECKS = {
              "int32, the URL Standard's ASCII carve-out is lower-casing; the Punycode model is run against the C++. Data: "
              "per-plane digests of map(cp) for all 1,112,064 scalar values are pinned; map(cp) is compared with the UTS46 15.1 "
              "table for every code point it classifies, normalize(map(s)) with Python 3.13 NFC (15.1), Punycode with CPython's "
-             "RFC 3492 codec, label validity with idna 3.7, plus all WPT IdnaTestV2/toascii vectors through the host parser.",
+             "RFC 3492 codec, label validity with idna 3.7 (incl. invalid ACE labels beside non-ASCII labels, long-domain probes "
+             "around the 16384-byte cap, a Hangul syllable sweep), plus all WPT IdnaTestV2/toascii vectors through the host "
+             "parser.",
         design_ref="DESIGN.md §5 C06", category="proof",
         note="oracle-limited and partial: no Unicode 17 data exists in this sandbox, so 'equals IdnaMappingTable 17.0' is NOT "
              "verified (15.1 oracles + pinned digest + WPT vectors instead); the IDNA pipeline itself is compared, not "
-             "modelled; three known findings (ZWNJ rule relaxed, Bidi rule per label, Bidi/Mark tables predate Unicode 14)."),
+             "modelled; four known findings (ZWNJ rule relaxed, Bidi rule per label, Bidi/Mark tables predate Unicode 14, 16384-byte input cap)."),
     "C16": dict(
         technique="Lean 4 proof of the table-independent laws (Punycode output lower-case, ASCII branch idempotent and "
                   "case-insensitive); equivalent-spelling laws decided on the implementation with spellings derived from "
